@@ -93,6 +93,8 @@ def accepts(ar, lengths: Tuple[int, Optional[int]], exact_len: Optional[Set[int]
 
 def run(ctx, rep):
     ix, T = ctx.ix, ctx.typer
+    from .common import check_falsy_zero
+    check_falsy_zero(ctx, rep, "C17.7", ['jaqalpaq.parser.slyparse', 'jaqalpaq.core.circuitbuilder', 'jaqalpaq.qsyntax'], floor_positions=10)
     builder = ix.cls(BUILDER)
     consumers: Dict[str, tuple] = {}
     for mname, fi in builder.methods.items():
